@@ -108,7 +108,13 @@ class Parser:
             raise E2PyclParserException('The dependency chain or the nesting of formulas is too deep to translate') \
                 from error
 
-        self._translation = context.build_class()
+        translation = context.build_class()
+        try:
+            compile(translation, '<translation>', 'exec')
+        except (SyntaxError, RecursionError, MemoryError, ValueError) as error:
+            # e.g. operators or brackets nested more deeply than Python's own parser accepts
+            raise E2PyclParserException(f'The workbook cannot be expressed as a Python class: {error}') from error
+        self._translation = translation
 
         self._excel_file_path_has_been_changed = False
         self._entrypoint_cell_has_been_changed = False
